@@ -381,6 +381,11 @@ func (c *ClientConn) Close() error {
 	return c.transport.Close()
 }
 
+// errUnexpectedResponse reports a response whose type does not match the request it answers.
+func errUnexpectedResponse(req message.Request, resp message.Request) error {
+	return errors.Errorf("unexpected response %T to %T: %w", resp, req, errors.ErrMalformedMessage)
+}
+
 // SendDisconnectは、Disconnectメッセージを送信します。
 func (c *ClientConn) SendDisconnect(ctx context.Context, msg *message.Disconnect) error {
 	return c.transport.Write(msg)
@@ -393,19 +398,28 @@ func (c *ClientConn) SendUpstreamMetadata(ctx context.Context, msg *message.Upst
 	if err != nil {
 		return nil, err
 	}
-	return res.(*message.UpstreamMetadataAck), nil
+	ack, ok := res.(*message.UpstreamMetadataAck)
+	if !ok {
+		return nil, errUnexpectedResponse(msg, res)
+	}
+	return ack, nil
 }
 
 func (c *ClientConn) sendPing() (*message.Pong, error) {
 	ctx, cancel := context.WithTimeout(c.ctx, c.pingTimeout)
 	defer cancel()
-	resp, err := c.sendRequest(ctx, &message.Ping{
+	ping := &message.Ping{
 		RequestID: message.RequestID(c.idGenerator.Next()),
-	})
+	}
+	resp, err := c.sendRequest(ctx, ping)
 	if err != nil {
 		return nil, err
 	}
-	return resp.(*message.Pong), nil
+	pong, ok := resp.(*message.Pong)
+	if !ok {
+		return nil, errUnexpectedResponse(ping, resp)
+	}
+	return pong, nil
 }
 
 // SubscribeUpstreamChunkAckは、UpstreamChunkAckを待ち受けます。
@@ -452,7 +466,10 @@ func (c *ClientConn) SendUpstreamOpenRequest(ctx context.Context, req *message.U
 		return nil, err
 	}
 
-	res := resp.(*message.UpstreamOpenResponse)
+	res, ok := resp.(*message.UpstreamOpenResponse)
+	if !ok {
+		return nil, errUnexpectedResponse(req, resp)
+	}
 	c.openUpstream(ctx, req.QoS, res.AssignedStreamID, res.AssignedStreamIDAlias)
 
 	return res, nil
@@ -468,7 +485,10 @@ func (c *ClientConn) SendUpstreamResumeRequest(ctx context.Context, req *message
 		return nil, err
 	}
 
-	res := resp.(*message.UpstreamResumeResponse)
+	res, ok := resp.(*message.UpstreamResumeResponse)
+	if !ok {
+		return nil, errUnexpectedResponse(req, resp)
+	}
 
 	c.openUpstream(ctx, qoS, req.StreamID, res.AssignedStreamIDAlias)
 
@@ -491,15 +511,19 @@ func (c *ClientConn) SendUpstreamChunk(ctx context.Context, req *message.Upstrea
 // SendUpstreamCloseRequestは、UpstreamCloseRequestを送信します。
 func (c *ClientConn) SendUpstreamCloseRequest(ctx context.Context, req *message.UpstreamCloseRequest) (*message.UpstreamCloseResponse, error) {
 	req.RequestID = message.RequestID(c.idGenerator.Next())
-	resp, err := c.sendRequest(ctx, req)
+	res, err := c.sendRequest(ctx, req)
 	if err != nil {
 		return nil, err
+	}
+	resp, ok := res.(*message.UpstreamCloseResponse)
+	if !ok {
+		return nil, errUnexpectedResponse(req, res)
 	}
 	c.upstreams.mu.Lock()
 	defer c.upstreams.mu.Unlock()
 	alias, ok := c.upstreams.aliases[req.StreamID]
 	if !ok {
-		return resp.(*message.UpstreamCloseResponse), nil
+		return resp, nil
 	}
 
 	delete(c.upstreams.aliases, req.StreamID)
@@ -512,7 +536,7 @@ func (c *ClientConn) SendUpstreamCloseRequest(ctx context.Context, req *message.
 		delete(c.upstreams.messageWriters, alias)
 	}
 
-	return resp.(*message.UpstreamCloseResponse), nil
+	return resp, nil
 }
 
 // SubscribeDownstreamChunkは、指定したストリームIDエイリアス、QoSのDownstreamChunkを待ち受けます。
@@ -595,7 +619,10 @@ func (c *ClientConn) SendDownstreamResumeRequest(ctx context.Context, req *messa
 	if err != nil {
 		return nil, err
 	}
-	resp := res.(*message.DownstreamResumeResponse)
+	resp, ok := res.(*message.DownstreamResumeResponse)
+	if !ok {
+		return nil, errUnexpectedResponse(req, res)
+	}
 
 	c.downstreams.mu.Lock()
 	defer c.downstreams.mu.Unlock()
@@ -611,7 +638,10 @@ func (c *ClientConn) SendDownstreamOpenRequest(ctx context.Context, req *message
 	if err != nil {
 		return nil, err
 	}
-	resp := res.(*message.DownstreamOpenResponse)
+	resp, ok := res.(*message.DownstreamOpenResponse)
+	if !ok {
+		return nil, errUnexpectedResponse(req, res)
+	}
 
 	c.downstreams.mu.Lock()
 	defer c.downstreams.mu.Unlock()
@@ -623,16 +653,20 @@ func (c *ClientConn) SendDownstreamOpenRequest(ctx context.Context, req *message
 // SendDownstreamCloseRequestは、DownstreamCloseRequestを送信します。
 func (c *ClientConn) SendDownstreamCloseRequest(ctx context.Context, req *message.DownstreamCloseRequest) (*message.DownstreamCloseResponse, error) {
 	req.RequestID = message.RequestID(c.idGenerator.Next())
-	resp, err := c.sendRequest(ctx, req)
+	res, err := c.sendRequest(ctx, req)
 	if err != nil {
 		return nil, err
+	}
+	resp, ok := res.(*message.DownstreamCloseResponse)
+	if !ok {
+		return nil, errUnexpectedResponse(req, res)
 	}
 	c.downstreams.mu.Lock()
 	defer c.downstreams.mu.Unlock()
 
 	alias, ok := c.downstreams.aliases[req.StreamID]
 	if !ok {
-		return resp.(*message.DownstreamCloseResponse), nil
+		return resp, nil
 	}
 	delete(c.downstreams.aliases, req.StreamID)
 
@@ -652,7 +686,7 @@ func (c *ClientConn) SendDownstreamCloseRequest(ctx context.Context, req *messag
 		delete(c.downstreams.metadata, alias)
 	}
 
-	return resp.(*message.DownstreamCloseResponse), nil
+	return resp, nil
 }
 
 // SendDownstreamDataPointsAckは、DownstreamMetadataAckを送信します。
